@@ -5,8 +5,8 @@ package filtering
 import (
 	"bufio"
 	"bytes"
-	"encoding/json"
 	"context"
+	"encoding/json"
 	"fmt"
 	"io"
 	"math/rand/v2"
@@ -340,8 +340,7 @@ func (w *c15World) observe(before []os.FileInfo) (obs []string) {
 	return obs
 }
 
-// setURL runs one set_url request on list i and then does what updatesLoop
-// does with a pending engine rebuild.
+// setURL runs one set_url request on list i.
 func (w *c15World) setURL(f []string) []string {
 	i, j, k := vutil.Atoi(f[0]), vutil.Atoi(f[1]), vutil.Atoi(f[2])
 	enabled, kind, data, complete := vutil.UnB(f[3]), f[4], vutil.Unhex(f[5]), vutil.UnB(f[6])
@@ -373,16 +372,51 @@ func (w *c15World) setURL(f []string) []string {
 	r := httptest.NewRequest(http.MethodPost, "http://agh.example/control/filtering/set_url", bytes.NewReader(body))
 	rec := httptest.NewRecorder()
 	w.d.handleFilteringSetURL(rec, r)
-	select {
-	case params := <-w.d.filtersInitializerChan:
-		if ierr := w.d.initFiltering(params.allowFilters, params.blockFilters); ierr != nil {
-			panic(ierr)
-		}
-	default:
-	}
+	// The engine rebuild is only requested here; C15.loop runs it.
 	changed := w.flt(i).URL == newURL && oldURL != newURL
 
 	return append([]string{strconv.Itoa(rec.Code), vutil.B(changed)}, w.observe(before)...)
+}
+
+func (w *c15World) stats() []os.FileInfo {
+	before := make([]os.FileInfo, len(w.lists))
+	for x := range w.lists {
+		before[x], _ = os.Stat(w.flt(x).Path(w.dataDir))
+	}
+
+	return before
+}
+
+// setRules runs set_rules: a handler that changes no list and requests an
+// engine rebuild.
+func (w *c15World) setRules() []string {
+	before := w.stats()
+	r := httptest.NewRequest(http.MethodPost, "http://agh.example/control/filtering/set_rules", strings.NewReader(`{"rules":[]}`))
+	r.Header.Set("Content-Type", "application/json")
+	rec := httptest.NewRecorder()
+	w.d.handleFilteringSetRules(rec, r)
+
+	return append([]string{strconv.Itoa(rec.Code)}, w.observe(before)...)
+}
+
+// loop does what updatesLoop does with the tasks waiting in the channel.
+func (w *c15World) loop() []string {
+	before := w.stats()
+	for {
+		select {
+		case params := <-w.d.filtersInitializerChan:
+			if ierr := w.d.initFiltering(params.allowFilters, params.blockFilters); ierr != nil {
+				panic(ierr)
+			}
+
+			continue
+		default:
+		}
+
+		break
+	}
+
+	return w.observe(before)
 }
 
 func c15RunB(f []string) []string {
@@ -394,6 +428,10 @@ func c15RunB(f []string) []string {
 		return w.refresh(f[1:])
 	case "C15.seturl":
 		return w.setURL(f[1:])
+	case "C15.setrules":
+		return w.setRules()
+	case "C15.loop":
+		return w.loop()
 	}
 	panic("unknown op " + f[0])
 }
@@ -449,23 +487,29 @@ func c15GenB(r *rand.Rand, emit vutil.Emit) {
 		ver := 0
 		steps := 2 + r.IntN(7)
 		for s := 0; s < steps; s++ {
-			if r.IntN(5) == 0 {
-				// a set_url request on an HTTP list
+			if r.IntN(4) == 0 {
+				// a burst of 1-3 handler calls that each request an engine rebuild
+				// (set_url on HTTP lists, set_rules), THEN the updates-loop step
 				var httpLists []int
 				for i, l := range lists {
 					if !l.local {
 						httpLists = append(httpLists, i)
 					}
 				}
-				if len(httpLists) > 0 {
+				for b := 1 + r.IntN(3); b > 0; b-- {
+					if len(httpLists) == 0 || r.IntN(4) == 0 {
+						emit("C15.setrules")
+
+						continue
+					}
 					i := vutil.Pick(r, httpLists)
 					j, k := i, 0
 					switch x := r.IntN(10); {
-					case x < 6:
+					case x < 5:
 						ver++
 						k = ver
 					case x < 8:
-						k = ver // maybe the current one: nothing changes
+						k = ver // maybe the current one: only the enabled flag can change
 					case x < 9:
 						k = 0
 					default:
@@ -490,11 +534,15 @@ func c15GenB(r *rand.Rand, emit vutil.Emit) {
 					case x < 11:
 						kind = "R" + vutil.Pick(r, []string{"301", "302", "308"})
 					}
-					emit("C15.seturl", strconv.Itoa(i), strconv.Itoa(j), strconv.Itoa(k), vutil.B(r.IntN(5) > 0),
+					emit("C15.seturl", strconv.Itoa(i), strconv.Itoa(j), strconv.Itoa(k), vutil.B(r.IntN(3) > 0),
 						kind, vutil.Hex(data), vutil.B(complete))
-
-					continue
 				}
+				emit("C15.loop")
+				if r.IntN(6) == 0 {
+					emit("C15.loop") // nothing waiting
+				}
+
+				continue
 			}
 			block, allow := true, true
 			switch r.IntN(6) {
